@@ -607,7 +607,7 @@ func (e *specEnv) call(s *SExpr) Val {
 			e.names[args[0].Name] = saved
 		}
 		if !ok {
-			e.fail("final: unknown variable %s", args[0].Name)
+			e.fail("unknown identifier %q (final)", args[0].Name)
 		}
 		return v
 	case "qget":
